@@ -20,13 +20,49 @@ type chainSpec struct {
 	nontrivial func(c *Case) (bool, string)
 	// panicIsViolation: a panic of the application inside block processing counts against this property
 	panicIsViolation bool
+	// noInject: do not serve mempool checks while driving the primary
+	noInject bool
+	// pRestart: percent of blocks after which the replica is stopped and reopened (the property must hold across restarts)
+	pRestart int
 }
 
 func runChain(t *testing.T, sp *chainSpec) {
-	runCheck(t, sp.prop, sp.profile(), func(src Source, st *Stats) *Outcome {
+	prof := sp.profile()
+	prof.LiveInject = !sp.noInject
+	runCheck(t, sp.prop, prof, func(src Source, st *Stats) *Outcome {
 		var firstViol *Violation
 		var prevApp *AppState
+		gsrc, generating := src.(*GenSource)
+		// A real node serves mempool checks all the time: CheckTx of the block's own txs right before their
+		// delivery and of fresh valid txs at the ABCI-call boundaries. They must not influence what the model predicts.
+		serve := func(c *Case, b *Block, pos int, own []byte) {
+			if generating && !sp.noInject {
+				if own != nil && pct(gsrc.t, 25, "checkOwnFirst") {
+					b.Inject = append(b.Inject, Injected{Pos: pos, Kind: "check", Tx: own})
+				}
+				if len(gsrc.fresh) > 0 && pct(gsrc.t, 12, "checkFresh") {
+					b.Inject = append(b.Inject, Injected{Pos: pos, Kind: "check", Tx: pick(gsrc.t, gsrc.fresh, "freshTx")})
+				}
+			}
+			for i := range b.Inject {
+				inj := &b.Inject[i]
+				if inj.Pos != pos || inj.done || inj.Kind != "check" {
+					continue
+				}
+				inj.done = true
+				if r, perr := c.Sim.CheckTx(inj.Tx); perr == nil && r.Code == 0 {
+					c.W.Feat["checktx_ok_served"]++
+				}
+			}
+		}
 		c, err := RunPrimary(sp.prop, src, &PrimaryOpts{
+			BlockHooks: func(c *Case, b *Block) *BlockHooks {
+				return &BlockHooks{
+					BeforeTx:    func(i int) { serve(c, b, i, b.Txs[i]) },
+					AfterEnd:    func() { serve(c, b, len(b.Txs)+1, nil) },
+					AfterCommit: func() { serve(c, b, len(b.Txs)+2, nil) },
+				}
+			},
 			BeforeBlock: func(c *Case, b *Block) {
 				if c.W.PeekDelegatee == nil {
 					c.W.PeekDelegatee = func(addr []byte) bool { return c.Sim.App.VerifStake().Delegatee(addr) != nil }
@@ -50,6 +86,15 @@ func runChain(t *testing.T, sp *chainSpec) {
 						msg += fmt.Sprintf(" (+%d more: %s)", len(vs)-1, trunc(vs[1].Msg, 200))
 					}
 					return violationf("%s", msg)
+				}
+				if gs, ok := src.(*GenSource); ok && sp.pRestart > 0 && c.EndedBy == "" && pct(gs.t, sp.pRestart, "restartAfter") {
+					b.RestartAfter = true
+				}
+				if b.RestartAfter && c.EndedBy == "" {
+					if _, perr := c.Sim.Restart(); perr != nil {
+						return perr // a node that does not come back is C07's finding
+					}
+					c.W.Feat["restart"]++
 				}
 				return nil
 			},
@@ -98,7 +143,7 @@ func featShape(c *Case, ks ...string) string {
 // ---- C04 -------------------------------------------------------------------------
 
 func TestC04(t *testing.T) {
-	runChain(t, &chainSpec{prop: "C04",
+	runChain(t, &chainSpec{prop: "C04", pRestart: 3,
 		profile: func() *Profile {
 			p := defaultProfile()
 			p.MinBlocks, p.MaxBlocks = 6, 20
@@ -138,7 +183,7 @@ func TestC04(t *testing.T) {
 // ---- C16 -------------------------------------------------------------------------
 
 func TestC16(t *testing.T) {
-	runChain(t, &chainSpec{prop: "C16",
+	runChain(t, &chainSpec{prop: "C16", pRestart: 3,
 		profile: func() *Profile {
 			p := defaultProfile()
 			p.MinBlocks, p.MaxBlocks = 6, 20
@@ -183,7 +228,7 @@ func TestC16(t *testing.T) {
 // ---- C02 -------------------------------------------------------------------------
 
 func TestC02(t *testing.T) {
-	runChain(t, &chainSpec{prop: "C02",
+	runChain(t, &chainSpec{prop: "C02", pRestart: 4,
 		profile: func() *Profile {
 			p := defaultProfile()
 			p.MinBlocks, p.MaxBlocks = 10, 40
@@ -204,7 +249,7 @@ func TestC02(t *testing.T) {
 // ---- C11 -------------------------------------------------------------------------
 
 func TestC11(t *testing.T) {
-	runChain(t, &chainSpec{prop: "C11",
+	runChain(t, &chainSpec{prop: "C11", pRestart: 4,
 		profile: func() *Profile {
 			p := defaultProfile()
 			p.MinBlocks, p.MaxBlocks = 8, 30
@@ -225,7 +270,7 @@ func TestC11(t *testing.T) {
 // ---- C12 -------------------------------------------------------------------------
 
 func TestC12(t *testing.T) {
-	runChain(t, &chainSpec{prop: "C12",
+	runChain(t, &chainSpec{prop: "C12", pRestart: 4,
 		profile: func() *Profile {
 			p := defaultProfile()
 			p.MinBlocks, p.MaxBlocks = 10, 40
@@ -258,7 +303,7 @@ func TestC12(t *testing.T) {
 // ---- C13 -------------------------------------------------------------------------
 
 func TestC13(t *testing.T) {
-	runChain(t, &chainSpec{prop: "C13",
+	runChain(t, &chainSpec{prop: "C13", pRestart: 4,
 		profile: func() *Profile {
 			p := defaultProfile()
 			p.MinBlocks, p.MaxBlocks = 15, 45
@@ -291,7 +336,7 @@ func TestC13(t *testing.T) {
 // ---- C10 -------------------------------------------------------------------------
 
 func TestC10(t *testing.T) {
-	runChain(t, &chainSpec{prop: "C10",
+	runChain(t, &chainSpec{prop: "C10", pRestart: 9,
 		profile: func() *Profile {
 			p := defaultProfile()
 			p.MinBlocks, p.MaxBlocks = 10, 40
@@ -333,7 +378,7 @@ func TestC10(t *testing.T) {
 // ---- C14 -------------------------------------------------------------------------
 
 func TestC14(t *testing.T) {
-	runChain(t, &chainSpec{prop: "C14",
+	runChain(t, &chainSpec{prop: "C14", pRestart: 4,
 		profile: func() *Profile {
 			p := defaultProfile()
 			p.MinBlocks, p.MaxBlocks = 10, 36
@@ -363,7 +408,7 @@ func TestC14(t *testing.T) {
 // ---- C15 -------------------------------------------------------------------------
 
 func TestC15(t *testing.T) {
-	runChain(t, &chainSpec{prop: "C15", panicIsViolation: true,
+	runChain(t, &chainSpec{prop: "C15", pRestart: 5, panicIsViolation: true,
 		profile: func() *Profile {
 			p := defaultProfile()
 			p.MinBlocks, p.MaxBlocks = 12, 40
